@@ -250,20 +250,23 @@ theorem TMesh.inv_iff (m : TMesh) : m.Inv ↔
   simp only [Bool.and_eq_true, decide_eq_true_eq, List.all_eq_true, Bool.not_eq_true']
   tauto
 
+/-- labels: absent, or a non-empty duplicate-free list of `nvdim` names -/
+def VdimsOk (nvdim : Nat) : Option (List String) → Prop
+  | none => True
+  | some l => l ≠ [] ∧ l.length = nvdim ∧ hasDup l = false
+
 theorem TFld.inv_iff (f : TFld) : f.Inv ↔
     f.mesh.Inv ∧ 1 ≤ f.nvdim ∧
     f.data.shape = f.mesh.n ++ [f.nvdim] ∧ f.data.buf.length = natProd (f.mesh.n ++ [f.nvdim]) ∧
     f.valid.shape = f.mesh.n ∧ f.valid.buf.length = natProd f.mesh.n ∧
-    (match f.vdims with
-     | none => f.nvdim = 1
-     | some l => l ≠ [] ∧ l.length = f.nvdim ∧ hasDup l = false) := by
+    VdimsOk f.nvdim f.vdims := by
   unfold TFld.Inv TFld.invB TMesh.Inv
   cases hv : f.vdims with
   | none =>
-    simp only [Bool.and_eq_true, decide_eq_true_eq]
+    simp only [Bool.and_eq_true, decide_eq_true_eq, VdimsOk]
     tauto
   | some l =>
-    simp only [Bool.and_eq_true, decide_eq_true_eq, Bool.not_eq_true', List.isEmpty_eq_false_iff]
+    simp only [Bool.and_eq_true, decide_eq_true_eq, Bool.not_eq_true', List.isEmpty_eq_false_iff, VdimsOk]
     tauto
 
 /-! ## the region constructor on ordered corners -/
@@ -539,9 +542,26 @@ theorem upcast_length (b : DBuf) : b.upcast.length = b.length := by
 theorem upcast_idem (b : DBuf) : b.upcast.upcast = b.upcast := by
   cases b <;> rfl
 
-/-- the conversion on reading changes no number -/
-theorem upcast_vals (b : DBuf) : b.upcast.vals = b.vals := by
-  cases b <;> simp [upcast, vals]
+/-- the conversion on reading changes no value — for integer data exactly when every integer
+survives the C cast to binary64 (`IntSafe`) -/
+theorem upcast_vals (b : DBuf) (h : b.IntSafe) : b.upcast.vals = b.vals := by
+  cases b with
+  | ints v =>
+    simp only [upcast, vals, List.map_map]
+    apply List.map_congr_left
+    intro i hi
+    have : rne53 i = i := by
+      have := List.all_eq_true.mp h i hi
+      simpa using this
+    rw [Function.comp, this]
+  | floats v => rfl
+  | complexes v => rfl
+
+theorem intSafe_of_not_int (b : DBuf) (h : b.kind ≠ .int) : b.IntSafe := by
+  cases b <;> simp_all [IntSafe, intSafeB, kind]
+
+theorem upcast_intSafe (b : DBuf) : b.upcast.IntSafe := by
+  cases b <;> rfl
 
 /-- real stays real, complex stays complex -/
 theorem upcast_complex_iff (b : DBuf) : b.upcast.kind = .complex ↔ b.kind = .complex := by
@@ -596,31 +616,24 @@ theorem defaultVdims_none_iff (k : Nat) : Fld.defaultVdims k = none ↔ k = 1 :=
   · simp_all
   · split <;> simp_all
 
-theorem vdimsSet_inv (nvdim : Nat) (v : Option (List String))
-    (h : match v with
-      | none => nvdim = 1
-      | some l => l ≠ [] ∧ l.length = nvdim ∧ hasDup l = false) :
-    vdimsSet nvdim v = .ok v := by
+theorem vdimsSet_inv (nvdim : Nat) (v : Option (List String)) (h : VdimsOk nvdim v) :
+    vdimsSet nvdim v = .ok (recodeVdims nvdim v) := by
   cases v with
-  | none =>
-    simp only at h
-    subst h
-    simp [vdimsSet, defaultVdims_one]
+  | none => rfl
   | some l =>
     obtain ⟨hne, hl, hd⟩ := h
     cases l with
     | nil => exact absurd rfl hne
-    | cons x t => simp [vdimsSet, hl, hd]
+    | cons x t => simp [vdimsSet, hl, hd, recodeVdims]
 
 /-! ## the field -/
 
-/-- the reader on the written group, without any assumption on the unit: everything is
-`loaded f`, the unit is what `decUnit ∘ encUnit` makes of it -/
+/-- the reader on the written group, for every field the constructors return: `reread f` -/
 theorem fieldLoad_fieldSave_gen (f : TFld) (hf : f.Inv) :
-    fieldLoad (fieldSave f) = .ok { loaded f with unit := decUnit (encUnit f.unit) } := by
+    fieldLoad (fieldSave f) = .ok (reread f) := by
   obtain ⟨hm, hnv, hds, hdl, hvs, _, hvd⟩ := (TFld.inv_iff f).mp hf
-  unfold fieldLoad fieldSave
-  simp only [meshLoad_meshSave f.mesh hm, bind_ok, decVdims_encVdims]
+  unfold fieldLoad fieldLoadAt fieldSave
+  simp only [meshLoad_meshSave f.mesh hm, bind_ok, decVdims_encVdims, readLoc]
   unfold TFld.init
   have h1 : ¬ ((f.nvdim : Nat) : Int) < 1 := by omega
   have h2 : ((f.nvdim : Nat) : Int).toNat = f.nvdim := by simp
@@ -631,22 +644,36 @@ theorem fieldLoad_fieldSave_gen (f : TFld) (hf : f.Inv) :
   simp only [bind_ok]
   rw [asArray_shaped _ f.mesh.n f.nvdim rfl (by rw [DBuf.upcast_length]; exact hdl)]
   simp only [bind_ok, asValid_shaped f.valid f.mesh.n hvs, vdimsSet_inv f.nvdim f.vdims hvd, DBuf.upcast_idem]
-  have h3 : ¬ (f.nvdim ≠ 1 ∧ f.nvdim = f.mesh.region.dims.length ∧ f.vdims = none) := by
-    rintro ⟨hne, _, hnone⟩
-    rw [hnone] at hvd
-    exact hne hvd
   simp only [hd]
-  rw [if_neg h3]
   have e1 : ({ shape := f.mesh.n ++ [f.nvdim], buf := f.data.buf.upcast } : DArr)
       = { f.data with buf := f.data.buf.upcast } := by rw [← hds]
   have e2 : ({ shape := f.mesh.n, buf := f.valid.buf } : VArr) = f.valid := by rw [← hvs]
   rw [e1, e2]
   rfl
 
-theorem fieldLoad_fieldSave (f : TFld) (hf : f.Inv) (hu : f.unit ≠ some "None") :
-    fieldLoad (fieldSave f) = .ok (loaded f) := by
-  rw [fieldLoad_fieldSave_gen f hf, (decUnit_encUnit f.unit).mpr hu]
+/-- the reader's result is the property's `loaded f` unless the unit is the string `"None"` or
+labels are absent on more than one component -/
+theorem reread_eq_loaded (f : TFld) (hu : f.unit ≠ some "None") (hv : f.vdims = none → f.nvdim = 1) :
+    reread f = loaded f := by
+  have h1 : rereadVdims f = f.vdims := by
+    unfold rereadVdims
+    cases hvd : f.vdims with
+    | none => simp only [recodeVdims]; rw [hv hvd, defaultVdims_one]
+    | some l => rfl
+  unfold reread
+  rw [h1, (decUnit_encUnit f.unit).mpr hu]
   rfl
+
+theorem reread_vdims (f : TFld) (hv : f.vdims = none → f.nvdim = 1) : (reread f).vdims = f.vdims := by
+  show rereadVdims f = f.vdims
+  unfold rereadVdims
+  cases hvd : f.vdims with
+  | none => simp only [recodeVdims]; rw [hv hvd, defaultVdims_one]
+  | some l => rfl
+
+theorem fieldLoad_fieldSave (f : TFld) (hf : f.Inv) (hu : f.unit ≠ some "None") (hv : f.vdims = none → f.nvdim = 1) :
+    fieldLoad (fieldSave f) = .ok (loaded f) := by
+  rw [fieldLoad_fieldSave_gen f hf, reread_eq_loaded f hu hv]
 
 /-! ## a field that was read is a fixed point of the round trip -/
 
@@ -858,10 +885,7 @@ theorem legacyLoad_ok_gen (l : Legacy) (m' : TMesh) (h0 : 0 < l.p1.length) (hl :
   simp only [bind_ok]
   rw [asArray_shaped _ _ _ rfl (by rw [DBuf.upcast_length]; exact hb)]
   simp only [bind_ok, asValid, vdimsSet, DBuf.upcast_idem]
-  have h5 : ¬ (l.dim.toNat ≠ 1 ∧ l.dim.toNat = m'.region.dims.length ∧ Fld.defaultVdims l.dim.toNat = none) := by
-    rintro ⟨hne1, _, hnone⟩
-    exact hne1 ((defaultVdims_none_iff _).mp hnone)
-  rw [if_neg h5, hr']
+  rw [hr']
   rfl
 
 theorem legacyLoad_ok (l : Legacy) (h0 : 0 < l.p1.length) (hl : l.p2.length = l.p1.length)
